@@ -11,3 +11,4 @@ PROP = dict(
     assumptions=TRUST,
     bins=[rc('C18_strings', 'harness/C18_strings.cpp', 'tbb-asan')],
 )
+PROP['rule'] += ' Round-3 extension: FileName objects with static storage duration (constructed during static initialisation, the library linked statically) must equal the same names constructed in main.'
